@@ -562,7 +562,7 @@ class GuardWalk:
                     return ast.Subscript(base, ast.Constant(i), ast.Load())
                 return n
 
-        return Sub(depth).visit(copy.deepcopy(e))
+        return canon_yx(Sub(depth).visit(copy.deepcopy(e)))
 
     def expand_formula(self, f, rename=None, stop=()):
         k = f[0]
@@ -574,6 +574,27 @@ class GuardWalk:
             parts = [self.expand_formula(x, rename, stop) for x in f[1:]]
             return f_and(*parts) if k == 'and' else f_or(*parts)
         return f
+
+
+class _CanonYX(ast.NodeTransformer):
+    """`p.yx[0]` is `p.y`, `p.yx[1]` is `p.x`, and `a[p.yx]` is `a[p.y, p.x]`"""
+
+    def visit_Subscript(self, n: ast.Subscript):
+        self.generic_visit(n)
+        if isinstance(n.value, ast.Attribute) and n.value.attr == 'yx' and \
+                isinstance(n.slice, ast.Constant) and n.slice.value in (0, 1):
+            return ast.Attribute(n.value.value, 'yx'[n.slice.value], ast.Load())
+        if isinstance(n.slice, ast.Attribute) and n.slice.attr == 'yx':
+            n.slice = ast.Tuple([ast.Attribute(n.slice.value, 'y', ast.Load()),
+                                 ast.Attribute(copy.deepcopy(n.slice.value), 'x', ast.Load())],
+                                ast.Load())
+        return n
+
+
+def canon_yx(e: ast.AST) -> ast.AST:
+    if not any(isinstance(n, ast.Attribute) and n.attr == 'yx' for n in ast.walk(e)):
+        return e
+    return ast.fix_missing_locations(_CanonYX().visit(e))
 
 
 def walk_function(fn_node: ast.FunctionDef) -> GuardWalk:
